@@ -363,6 +363,9 @@ func (visitor *SymbolValidator) VisitUntypedSymbolNode(node *UntypedSymbolNode) 
 		visitor.typeStack = append([]SymbolTypes{visitor.symbolTypes}, visitor.typeStack...)
 		visitor.symbolTypes = visitor.onDeck
 		visitor.onDeck = nil
+		// this symbol is the source of a sub-query: what follows is the sub-query's own filter, an ordinary filter in which a
+		// set symbol may only appear inside a set function again
+		visitor.inSetFunction = false
 	}
 }
 
